@@ -61,7 +61,7 @@ func (g *Gen) probes() []probe {
 				hn = "E.NB"
 			}
 			if e0, ok := h0(hn); ok {
-				for i := 0; i < 3; i++ {
+				for i := 0; i < maxProbeElems; i++ {
 					el := T{fmt.Sprintf("(select (select %s (ptr %s)) (+ (off %s) %d))", e0, v.S, v.S, i), g.sortOf(sl.Elem())}
 					walk(fmt.Sprintf("%s[%d]", name, i), el, sl.Elem(), depth+1)
 				}
@@ -94,7 +94,21 @@ func (g *Gen) probes() []probe {
 			}
 		case *types.Interface:
 			if u.NumMethods() > 0 {
+				add(name, v.S, "Int")
 				add(name+".dyn", "(dyn "+v.S+")", "Int")
+				for _, tn := range sortedKeys(g.tags) {
+					if !strings.HasPrefix(tn, "*") {
+						continue
+					}
+					o := g.P.Pkg.Types.Scope().Lookup(tn[1:])
+					if o == nil {
+						continue
+					}
+					pt := types.NewPointer(o.Type())
+					if types.Implements(pt, u) {
+						walk(name+".("+tn+")", v, pt, depth+1)
+					}
+				}
 			}
 		}
 	}
